@@ -9,7 +9,8 @@ Families (all exhaustive over the stated finite spaces):
   c  single entries: tags x paths x sizes x checksum sets, IGNORE x paths, TIMESTAMP corners;
      lists: every sequence (with repetition) of <= 3 (quick) / <= 4 (thorough) entries from a
      14-entry menu, dumped unsorted and with sort=True
-  d  fixed point: every text of C09's grammar product (A) and byte-mutation family (D) that
+  d  fixed point: every text of C09's grammar product (A) and byte-mutation family (D)
+     (thorough: also C09's escape family C and its token sequences B up to length 5) that
      the real parser accepts is dumped, re-loaded and dumped again
   e  the entries of (c) through real files: plain, gz, bz2, lzma, xz via
      gemato.compression.open_potentially_compressed_path
@@ -42,7 +43,8 @@ RULE = ('families a-e of the module doc, each enumerated completely: (a) all 1,1
         'IGNORE, AUX); (b) all short strings over a '
         '15-character hostile alphabet x 3-4 tags; (c) full product of single entries and all '
         'ordered entry lists (with repetition) over a 14-entry menu, unsorted and sorted dump; '
-        '(d) every text of C09 families A and D accepted by the real parser; (e) the lists of (c) '
+        '(d) every text of C09 families A and D (thorough: also C and B up to length 5) accepted '
+        'by the real parser; (e) the lists of (c) '
         'through plain/gz/bz2/lzma/xz files.  One evaluation = one entry list (or accepted text) '
         'pushed through dump -> load -> dump plus the cross-checks against the reference '
         'parser/writer.  Distinct-case descriptor: (a) (embedding, tag, code point >> 12) - a '
@@ -506,6 +508,9 @@ def shards(tier, seed):
     out += [('e1', fmt, tag) for fmt in FMTS for tag in FILE_TAGS + ('IGNORE+TS',)]
     out += [('d',) + s for s in c09.grammar_shards(tier)]
     out += [('d',) + s for s in c09.mutation_shards(tier, seed)]
+    if tier == 'thorough':
+        out += [('d',) + s for s in c09.c_shards(tier)]
+        out += [('d',) + s for s in c09.b_shards('quick')]
     out += [('b', i) for i in range(15) if i != 1]
     out += [('c3', i) for i in range(14)]
     out += [('c1', tag) for tag in FILE_TAGS + ('IGNORE+TS',)]
@@ -603,8 +608,14 @@ def run_shard(spec, tier, seed, scratch):
                           'dumped': g_dump([mk_entry(s) for s in specs], True)[2]})
     elif fam == 'd':
         sub = spec[1:]
-        gen = (c09.grammar_texts(sub, seed) if sub[0] == 'A'
-               else c09.mutation_texts(sub, seed, stats.counters))
+        if sub[0] == 'A':
+            gen = c09.grammar_texts(sub, seed)
+        elif sub[0] == 'B':
+            gen = c09.b_texts(sub, 'quick', seed)        # token sequences of length <= 5
+        elif sub[0] == 'C':
+            gen = c09.c_texts(sub, seed)
+        else:
+            gen = c09.mutation_texts(sub, seed, stats.counters)
         cur, cur_nt = None, False
         sampled = False
         for desc, text in gen:
@@ -704,7 +715,8 @@ def extra_evidence(total, tier):
         'c': f'{len(single_specs(0))} single entries x sort in (False, True); all sequences of '
              f'length 1..{list_maxlen(tier)} over a 14-entry menu x sort in (False, True)',
         'd': 'C09 family A (grammar product) and family D (byte mutations'
-             + (', incl. pairs on manifest 0' if tier == 'thorough' else '') + '): accepted texts',
+             + (', incl. pairs on manifest 0) and families C (all escapes) and B (token '
+                'sequences, length <= 5' if tier == 'thorough' else '') + '): accepted texts',
         'e': f'{len(single_specs(0))} single entries and all sequences of length '
              f'1..{file_list_maxlen(tier)} over the 14-entry menu (sorted and unsorted) x '
              'plain/gz/bz2/lzma/xz',
